@@ -440,14 +440,15 @@ func init() {
 			for _, fname := range []string{"receivePayloadQueue.push", "receivePayloadQueue.hasChunk", "receivePayloadQueue.pop"} {
 				fn := c.Fn(fname)
 				okBit := false
-				forEachInstr(fn, func(in ssa.Instruction) {
+				// (the bit position may be computed by a small helper shared by push/pop/hasChunk)
+				forEachInstrDeep(c.P, fn, 2, func(in ssa.Instruction) {
 					b, ok := in.(*ssa.BinOp)
 					if !ok {
 						return
 					}
 					// 1 << (tsn % 64)  — or, for a test, (word >> (tsn % 64)) & 1; the shift amount may come from a position helper
 					isMask := b.Op == token.SHL && IsConstInt(1)(b.X)
-					isProbe := b.Op == token.SHR && fname == "receivePayloadQueue.hasChunk"
+					isProbe := b.Op == token.SHR && fname == "receivePayloadQueue.hasChunk" && in.Parent() == fn
 					if (isMask || isProbe) && BinV(token.REM, AnyV, IsConstInt(64))(b.Y) {
 						okBit = true
 					}
